@@ -113,10 +113,17 @@ def gen(rng, idx, tier, seed):
         start = float(np.floor(rng.uniform(0, scale) * 4) / 4)
         step = float(rng.choice([0.25, 0.5, 1, 1, 3, 6, 24, 365, 1461]))
         vals = [start + i * step for i in range(n)]
+        dtype = 'd'
+        if rng.random() < 0.3 and max(vals) < 2 ** 31 - 1:
+            # integer-typed time variable (e.g. int32 hours since 1900)
+            dtype = 'i'
+            step = max(1.0, float(int(step)))
+            vals = [float(int(start)) + i * step for i in range(n)]
         form = int(rng.integers(len(FORMS)))
         ref, canon = spell(form, y, mo, d, H, M, S)
         return {'mode': 'cf', 'ref': ref, 'canon': canon, 'form': form,
                 'unit': unit, 'calendar': cal, 'values': vals,
+                'dtype': dtype,
                 'bounds': str(rng.choice(['off', 'off', 'derived',
                                           'explicit']))}
     fs = gen_ioapi.gen_spec(rng, via='from_arrays')
@@ -151,7 +158,7 @@ def run_cf(spec, res):
     n = vals.size
     f = pnc.PseudoNetCDFFile()
     f.createDimension('time', n)
-    tv = f.createVariable('time', 'd', ('time',))
+    tv = f.createVariable('time', spec.get('dtype', 'd'), ('time',))
     tv.units = units
     if cal is not None:
         tv.calendar = cal
@@ -160,8 +167,11 @@ def run_cf(spec, res):
     bounds = spec['bounds'] != 'off'
     if spec['bounds'] == 'explicit':
         f.createDimension('nv', 2)
-        bv = f.createVariable('time_bounds', 'd', ('time', 'nv'))
         step = (vals[1] - vals[0]) if n > 1 else 1.0
+        if spec.get('dtype', 'd') == 'i':
+            step = step * 4     # integral edges
+        bv = f.createVariable('time_bounds', spec.get('dtype', 'd'),
+                              ('time', 'nv'))
         bv[:, 0] = vals - step / 4
         bv[:, 1] = np.append((vals - step / 4)[1:], vals[-1] + step / 2)
         tovals = np.append(bv[:, 0], bv[-1, 1])
@@ -172,6 +182,7 @@ def run_cf(spec, res):
             dt = np.diff(vals).mean()
             tovals = np.append(vals - dt / 2, vals[-1] + dt / 2)
     facets = ['cf', 'unit:' + spec['unit'], 'cal:%s' % cal,
+              'dtype:' + spec.get('dtype', 'd'),
               'bounds:' + spec['bounds'], 'form:%d' % spec['form']]
     dg = digest(spec)
     try:
@@ -263,7 +274,7 @@ def run_ioapi(spec, res):
             problems.append('TFLAG[%d] = %s, integer calendar says (%d, %d)'
                             % (i, tf[i, 0].tolist(), d, t))
             break
-    if spec['drop_tflag'] and spec['mode'] == 'tflag':
+    if spec['drop_tflag']:
         del f.variables['TFLAG']
         facets.append('no-tflag-variable')
     try:
